@@ -3,6 +3,8 @@ package c16
 import (
 	"fmt"
 	"math/rand"
+	"path"
+	"regexp"
 	"strings"
 )
 
@@ -49,6 +51,7 @@ type g struct {
 	files map[string]string
 	n     int
 	parts []string // partial paths created so far (may be rendered by later files)
+	libs  []*lib   // libraries created for partials (may be imported by several partials)
 }
 
 func (g *g) pick(s []string) string { return s[g.r.Intn(len(s))] }
@@ -175,17 +178,8 @@ func (g *g) newPartial(ext string) string {
 func (g *g) partialSource(name, ext string, must []string) string {
 	e := env{file: name, ext: ext}
 	imp := ""
-	if g.r.Intn(4) == 0 {
-		lext := ext
-		if g.r.Intn(3) > 0 {
-			lext = g.altFormat(ext)
-		}
-		l := g.newLib(g.pick(dirs), lext, false)
-		g.files[l.name] = l.source()
-		imp = fmt.Sprintf("{%% import %q %%}", "/"+l.name)
-		for _, m := range l.macros {
-			e.macros = append(e.macros, m.call)
-		}
+	if g.r.Intn(3) == 0 {
+		imp = g.useLib(&e, nil)
 	}
 	var b strings.Builder
 	b.WriteString(imp)
@@ -198,6 +192,94 @@ func (g *g) partialSource(name, ext string, must []string) string {
 		}
 	}
 	return b.String()
+}
+
+// useLib makes the body of e import a library: l if not nil, else one already
+// imported by other partials (a library shared by several files) or a new one,
+// often of another format. It returns the import statement.
+func (g *g) useLib(e *env, l *lib) string {
+	if l == nil && len(g.libs) > 0 && g.r.Intn(2) == 0 {
+		l = g.libs[g.r.Intn(len(g.libs))]
+	}
+	if l == nil {
+		lext := e.ext
+		if g.r.Intn(3) > 0 {
+			lext = g.altFormat(e.ext)
+		}
+		l = g.newLib(g.pick(dirs), lext, false)
+		g.files[l.name] = l.source()
+		g.libs = append(g.libs, l)
+	}
+	for _, m := range l.macros {
+		e.macros = append(e.macros, m.call)
+	}
+	for _, v := range l.vars {
+		e.params = append(e.params, strings.Fields(v)[2]) // the package variable is shown directly too
+	}
+	ref := "/" + l.name
+	if g.r.Intn(2) == 0 {
+		ref = g.relPath(e.file, l.name)
+	}
+	return fmt.Sprintf("{%% import %q %%}", ref)
+}
+
+// newSiblings creates k partials of format ext that all import one library
+// holding a package variable (a file imported from several files).
+func (g *g) newSiblings(ext string, k int) []string {
+	var l *lib
+	for l == nil || len(l.vars) == 0 {
+		l = g.newLib(g.pick(dirs), g.pick([]string{ext, ext, g.altFormat(ext)}), false)
+	}
+	g.files[l.name] = l.source()
+	g.libs = append(g.libs, l)
+	var names []string
+	for i := 0; i < k; i++ {
+		g.n++
+		name := fmt.Sprintf("%ssib%d%s", g.pick(dirs), g.n, ext)
+		e := env{file: name, ext: ext}
+		imp := g.useLib(&e, l)
+		g.files[name] = imp + g.body(e, 1+g.r.Intn(3), 0) + "{{ " + e.params[0] + " }}" + g.atom(ext)
+		g.parts = append(g.parts, name)
+		names = append(names, name)
+	}
+	return names
+}
+
+var refRE = regexp.MustCompile(`(?:render|import|extends)(?: [a-z.]+)? "([^"]+)"`)
+
+// closure returns the files reachable from name through render/import/extends.
+func (g *g) closure(name string, seen map[string]bool) map[string]bool {
+	if seen == nil {
+		seen = map[string]bool{}
+	}
+	if seen[name] {
+		return seen
+	}
+	seen[name] = true
+	for _, m := range refRE.FindAllStringSubmatch(g.files[name], -1) {
+		ref := m[1]
+		var t string
+		if strings.HasPrefix(ref, "/") {
+			t = ref[1:]
+		} else {
+			t = path.Join(path.Dir(name), ref)
+		}
+		if _, ok := g.files[t]; ok {
+			g.closure(t, seen)
+		}
+	}
+	return seen
+}
+
+// reachesPackageVars reports whether name reaches an imported file that
+// declares a package variable.
+func (g *g) reachesPackageVars(name string) bool {
+	for f := range g.closure(name, nil) {
+		if strings.Contains(g.files[f], "{% var ") {
+			return true
+		}
+	}
+	return false
 }
 
 // altFormat returns a format that differs from ext, mostly along the
@@ -360,20 +442,22 @@ func copyFiles(m map[string]string) map[string]string {
 // genCase generates one pair. fastPathScope: keep show-vs-var pairs to the
 // combinations outside the recorded finding (partial format == context format,
 // or Markdown partial in HTML).
-func genCase(r *rand.Rand, fastPathScope, typedMacroScope bool) caseData {
+func genCase(r *rand.Rand, fastPathScope, typedMacroScope, deadInitScope bool) caseData {
 	gg := &g{r: r, files: map[string]string{}}
 	// a few partials of mixed formats, shared by everything that follows
 	np := 1 + r.Intn(4)
 	for i := 0; i < np; i++ {
 		if r.Intn(3) == 0 {
 			gg.newChain(gg.pick([]string{".md", ".html", ".html", ".txt"}), 2+r.Intn(3))
+		} else if r.Intn(5) == 0 {
+			gg.newSiblings(gg.pick([]string{".html", ".md", ".txt"}), 2)
 		} else {
 			gg.newPartial(formats[r.Intn(len(formats))])
 		}
 	}
 	rootDir := gg.pick(dirs)
 	switch rel := r.Intn(100); {
-	case rel < 26: // {{ render f }} vs {% var x = render f %}{{ x }}
+	case rel < 20: // {{ render f }} vs {% var x = render f %}{{ x }}
 		rootExt := formats[r.Intn(len(formats))]
 		fext := rootExt
 		switch r.Intn(4) {
@@ -403,7 +487,7 @@ func genCase(r *rand.Rand, fastPathScope, typedMacroScope bool) caseData {
 			cd.B.Files[root] += fmt.Sprintf("{{ render %q }}%s", ref, y)
 		}
 		return cd
-	case rel < 42: // render vs running the file alone (same format); Markdown in HTML vs converting it
+	case rel < 33: // render vs running the file alone (same format); Markdown in HTML vs converting it
 		ext := formats[r.Intn(len(formats))]
 		rootExt := ext
 		cd := caseData{Rel: "render-vs-alone"}
@@ -419,7 +503,7 @@ func genCase(r *rand.Rand, fastPathScope, typedMacroScope bool) caseData {
 		cd.B = side{Files: copyFiles(gg.files), Root: f}
 		cd.Note = "partial " + ext + " in " + rootExt
 		return cd
-	case rel < 56: // the same file rendered 2-3 times in one page: every rendering equals the file run alone
+	case rel < 45: // the same file rendered 2-3 times in one page: every rendering equals the file run alone
 		ext := gg.pick([]string{".md", ".md", ".html", ".txt", ".md", ".js"})
 		rootExt := ext
 		cd := caseData{Rel: "render-repeated"}
@@ -444,7 +528,7 @@ func genCase(r *rand.Rand, fastPathScope, typedMacroScope bool) caseData {
 		cd.B = side{Files: copyFiles(gg.files), Root: f}
 		cd.Note = "partial " + ext + " in " + rootExt
 		return cd
-	case rel < 72: // extends vs the mechanically expanded single file
+	case rel < 58: // extends vs the mechanically expanded single file
 		ext := []string{".html", ".html", ".txt", ".md", ".js"}[r.Intn(5)]
 		layoutExt := ext
 		if ext == ".md" && r.Intn(2) == 0 && !typedMacroScope {
@@ -511,7 +595,7 @@ func genCase(r *rand.Rand, fastPathScope, typedMacroScope bool) caseData {
 		cd.B = side{Files: copyFiles(gg.files), Root: layout}
 		cd.B.Files[layout] = imp + own.inline(ext != layoutExt) + lb.String()
 		return cd
-	case rel < 90: // imported macro vs the same macro declared locally
+	case rel < 73: // imported macro vs the same macro declared locally
 		rootExt := formats[r.Intn(3)]
 		libExt := rootExt
 		if r.Intn(4) == 0 {
@@ -567,6 +651,158 @@ func genCase(r *rand.Rand, fastPathScope, typedMacroScope bool) caseData {
 		if libExt != rootExt {
 			cd.Note += ", typed"
 		}
+		return cd
+	case rel < 83: // {% import "f" for N %} / period imports vs qualified imports, with files that declare the same names
+		rootExt := formats[r.Intn(3)]
+		root := rootDir + "index" + rootExt
+		pool := []string{"Na", "Nb", "Nc", "Va", "Vb"}
+		k := 2 + r.Intn(2)
+		libs := make([]*lib, k)
+		declares := make([]map[string]bool, k)
+		for i := range libs {
+			gg.n++
+			l := &lib{name: fmt.Sprintf("%sbind%d%s", gg.pick([]string{rootDir, rootDir, gg.pick(dirs)}), gg.n, rootExt), ext: rootExt}
+			declares[i] = map[string]bool{}
+			for _, name := range pool {
+				if r.Intn(2) == 0 {
+					continue
+				}
+				declares[i][name] = true
+				tag := fmt.Sprintf("lib%d.%s", i, name)
+				if name[0] == 'V' {
+					l.vars = append(l.vars, fmt.Sprintf("{%% var %s = %q %%}", name, tag))
+				} else {
+					l.macros = append(l.macros, macroDecl{name: name, call: name + "()", body: tag + gg.body(env{file: l.name, ext: rootExt}, r.Intn(2), 1)})
+				}
+			}
+			if len(declares[i]) == 0 {
+				declares[i]["Na"] = true
+				l.macros = append(l.macros, macroDecl{name: "Na", call: "Na()", body: fmt.Sprintf("lib%d.Na", i)})
+			}
+			libs[i] = l
+			gg.files[l.name] = l.source()
+		}
+		// every declared name is imported from exactly one of the files that declare it (or from none)
+		owned := make([][]string, k)
+		for _, name := range pool {
+			var ds []int
+			for i := range libs {
+				if declares[i][name] {
+					ds = append(ds, i)
+				}
+			}
+			if len(ds) == 0 || r.Intn(6) == 0 {
+				continue
+			}
+			o := ds[r.Intn(len(ds))]
+			owned[o] = append(owned[o], name)
+		}
+		var impA, impB []string
+		var useA, useB strings.Builder
+		useA.WriteString(gg.atom(rootExt))
+		useB.WriteString(useA.String())
+		for _, i := range r.Perm(k) {
+			if len(owned[i]) == 0 {
+				continue
+			}
+			ref := gg.relPath(root, libs[i].name)
+			if len(owned[i]) == len(declares[i]) && r.Intn(2) == 0 {
+				// the file imports all it declares: a period import says the same
+				impA = append(impA, fmt.Sprintf("{%% import %s%q %%}", gg.pick([]string{"", ". "}), ref))
+			} else {
+				impA = append(impA, fmt.Sprintf("{%% import %q for %s %%}", ref, strings.Join(owned[i], ", ")))
+			}
+			impB = append(impB, fmt.Sprintf("{%% import q%d %q %%}", i, ref))
+			for _, name := range owned[i] {
+				t := gg.atom(rootExt)
+				if name[0] == 'V' {
+					fmt.Fprintf(&useA, "{{ %s }}%s", name, t)
+					fmt.Fprintf(&useB, "{{ q%d.%s }}%s", i, name, t)
+				} else {
+					fmt.Fprintf(&useA, "{{ %s() }}%s", name, t)
+					fmt.Fprintf(&useB, "{{ q%d.%s() }}%s", i, name, t)
+				}
+			}
+		}
+		cd := caseData{Rel: "for-import-vs-qualified", Note: fmt.Sprintf("%d files in %s", k, rootExt)}
+		cd.A = side{Files: copyFiles(gg.files), Root: root}
+		cd.A.Files[root] = strings.Join(impA, "") + useA.String()
+		cd.B = side{Files: copyFiles(gg.files), Root: root}
+		cd.B.Files[root] = strings.Join(impB, "") + useB.String()
+		return cd
+	case rel < 94: // a page with code that never runs vs the page without it
+		rootExt := gg.pick([]string{".html", ".html", ".md", ".txt", ".js"})
+		root := rootDir + "index" + rootExt
+		var live []string
+		if r.Intn(2) == 0 {
+			live = gg.newSiblings(rootExt, 2+r.Intn(2))
+		} else {
+			live = []string{gg.newTarget(rootExt), gg.newTarget(rootExt)}
+		}
+		// what the dead code renders: files that the live code renders too, or others
+		cand := append(append([]string{}, live...), gg.parts...)
+		var dead []string
+		for _, c := range cand {
+			pe := extOf(c)
+			if !(pe == rootExt || (pe == ".md" && rootExt == ".html")) {
+				continue
+			}
+			if deadInitScope && gg.reachesPackageVars(c) {
+				continue
+			}
+			dead = append(dead, c)
+		}
+		var deadBody strings.Builder
+		deadBody.WriteString(gg.atom(rootExt))
+		for i := 0; i < 1+r.Intn(2) && len(dead) > 0; i++ {
+			fmt.Fprintf(&deadBody, "{{ render %q }}%s", gg.relPath(root, dead[r.Intn(len(dead))]), gg.atom(rootExt))
+		}
+		var block, form string
+		switch r.Intn(4) {
+		case 0:
+			form = "if-false"
+			block = "{% if false %}" + deadBody.String() + "{% end if %}"
+		case 1:
+			form = "macro-never-called"
+			block = "{% macro Dead %}" + deadBody.String() + "{% end macro %}"
+		case 2:
+			form = "else-of-true"
+			block = "{% if n > 0 %}" + gg.atom(rootExt) + "{% else %}" + deadBody.String() + "{% end if %}"
+		default:
+			form = "if-runtime-false"
+			block = "{% if n < 0 %}" + deadBody.String() + "{% end if %}"
+		}
+		var woDead string
+		if form == "else-of-true" {
+			woDead = block[:strings.Index(block, "{% else %}")] + "{% end if %}"
+		}
+		at := r.Intn(len(live) + 1)
+		if r.Intn(2) == 0 {
+			at = 0 // before the first live use
+		}
+		var a, b strings.Builder
+		for i := 0; i <= len(live); i++ {
+			t := gg.atom(rootExt)
+			a.WriteString(t)
+			b.WriteString(t)
+			if i == at {
+				a.WriteString(block)
+				b.WriteString(woDead)
+				t = gg.atom(rootExt)
+				a.WriteString(t)
+				b.WriteString(t)
+			}
+			if i < len(live) {
+				rs := fmt.Sprintf("{{ render %q }}", gg.relPath(root, live[i]))
+				a.WriteString(rs)
+				b.WriteString(rs)
+			}
+		}
+		cd := caseData{Rel: "dead-code-removed", Note: form + " in " + rootExt}
+		cd.A = side{Files: copyFiles(gg.files), Root: root}
+		cd.A.Files[root] = a.String()
+		cd.B = side{Files: copyFiles(gg.files), Root: root}
+		cd.B.Files[root] = b.String()
 		return cd
 	default: // render … default
 		rootExt := formats[r.Intn(len(formats))]
